@@ -101,6 +101,13 @@ def check_copydimension(ctx, rule='R-UNLIM'):
         if not created:
             continue
         kind = pth.decided(is_kind_test)
+        # the class of self does not change between two tests: a path that decides isinstance(self, C) both ways does not exist
+        # (paths.expand forgets decisions across a call, which is right for data but not for the type of the receiver)
+        kpol = {}
+        for e_, pol_ in kind:
+            kpol.setdefault(norm(e_), set()).add(pol_)
+        if any(len(v_) > 1 for v_ in kpol.values()):
+            continue
         nc = kind[-1][1] if kind and 'netcdf' in norm(kind[-1][0]) else None
         ul = pth.polarity(flag)
         call, cst = created[-1]
